@@ -50,7 +50,9 @@ template <class Json> static void m_insert_new(MV& o, const std::string& k, cons
 }
 
 enum OpKind { ASSIGN_LIT, COPY_XY, COPY_YX, MOVE_XY, SWAP, COPYCTOR_RT, MOVECTOR_RT, SELF_ASSIGN, REF_ASSIGN, PUSH_BACK, INSERT_AT, ERASE_AT, ERASE_RANGE, RESIZE, CLEAR, RESERVE, SHRINK,
-              INSERT_OR_ASSIGN, TRY_EMPLACE, INDEX_ASSIGN, ERASE_KEY, MERGE, MERGE_OR_UPDATE, PUSH_BACK_Y, INSERT_OR_ASSIGN_Y, N_OPKINDS };
+              INSERT_OR_ASSIGN, TRY_EMPLACE, INDEX_ASSIGN, ERASE_KEY, MERGE, MERGE_OR_UPDATE, PUSH_BACK_Y, INSERT_OR_ASSIGN_Y,
+              ERASE_OBJ_AT, ERASE_OBJ_RANGE, EMPLACE_BACK, EMPLACE_AT, INSERT_RANGE_ARR, INSERT_RANGE_OBJ, HINT_INSERT_OR_ASSIGN, HINT_TRY_EMPLACE, HINT_MERGE, HINT_MERGE_OR_UPDATE,
+              RESIZE_VAL, INDEX_POS_ASSIGN, N_OPKINDS };
 struct Op { OpKind k; int a = 0; int b = 0; std::string name; };
 
 template <class Json>
@@ -64,7 +66,28 @@ static std::vector<Op> all_ops() {
     for (int v = 0; v < 2; ++v) ops.push_back({PUSH_BACK, v, 0, std::string("x.push_back(") + (v ? "\"s\"" : "1") + ")"});
     for (int pos = 0; pos < 2; ++pos) ops.push_back({INSERT_AT, pos, 0, "x.insert(begin+" + std::to_string(pos) + ",2)"});
     for (int pos = 0; pos < 2; ++pos) ops.push_back({ERASE_AT, pos, 0, "x.erase(begin+" + std::to_string(pos) + ")"});
-    ops.push_back({ERASE_RANGE, 0, 2, "x.erase(begin,begin+2)"});
+    // ranges [i,j) with j = -1 meaning end(); (0,0) and (end,end) are empty ranges
+    for (auto ij : std::vector<std::pair<int,int>>{{0, 2}, {0, 1}, {1, 2}, {0, -1}, {1, -1}, {2, -1}, {0, 0}, {-1, -1}}) {
+        auto nm = [](int i) { return i < 0 ? std::string("end") : "begin+" + std::to_string(i); };
+        ops.push_back({ERASE_RANGE, ij.first, ij.second, "x.erase(" + nm(ij.first) + "," + nm(ij.second) + ")"});
+        ops.push_back({ERASE_OBJ_RANGE, ij.first, ij.second, "x.erase(obegin" + nm(ij.first).substr(ij.first < 0 ? 0 : 5) + ",obegin" + nm(ij.second).substr(ij.second < 0 ? 0 : 5) + ")"});
+    }
+    for (int pos = 0; pos < 3; ++pos) ops.push_back({ERASE_OBJ_AT, pos, 0, "x.erase(obegin+" + std::to_string(pos) + ")"});
+    ops.push_back({EMPLACE_BACK, 0, 0, "x.emplace_back(1)"});
+    for (int pos : {0, 1, -1}) ops.push_back({EMPLACE_AT, pos, 0, "x.emplace(" + (pos < 0 ? std::string("end") : "begin+" + std::to_string(pos)) + ",\"s\")"});
+    for (int pos : {0, -1}) ops.push_back({INSERT_RANGE_ARR, pos, 0, "x.insert(" + (pos < 0 ? std::string("end") : std::string("begin")) + ",y.begin,y.end)"});
+    ops.push_back({INSERT_RANGE_OBJ, 0, 0, "x.insert(pairs{b:2,a:s,b:3})"});
+    for (int h : {0, 1, -1}) for (int k = 0; k < 3; ++k) {
+        std::string hs = h < 0 ? "oend" : "obegin+" + std::to_string(h), ks(1, char('a' + k));
+        ops.push_back({HINT_INSERT_OR_ASSIGN, k, h, "x.insert_or_assign(" + hs + "," + ks + ",2)"});
+        ops.push_back({HINT_TRY_EMPLACE, k, h, "x.try_emplace(" + hs + "," + ks + ",2)"});
+    }
+    for (int h : {0, 1, -1}) {
+        std::string hs = h < 0 ? "oend" : "obegin+" + std::to_string(h);
+        ops.push_back({HINT_MERGE, 0, h, "x.merge(" + hs + ",y)"}); ops.push_back({HINT_MERGE_OR_UPDATE, 0, h, "x.merge_or_update(" + hs + ",y)"});
+    }
+    ops.push_back({RESIZE_VAL, 2, 0, "x.resize(2,\"s\")"});
+    for (int pos = 0; pos < 2; ++pos) ops.push_back({INDEX_POS_ASSIGN, pos, 0, "x[" + std::to_string(pos) + "]=3"});
     for (int n : {0, 1, 3}) ops.push_back({RESIZE, n, 0, "x.resize(" + std::to_string(n) + ")"});
     ops.push_back({CLEAR, 0, 0, "x.clear()"}); ops.push_back({RESERVE, 5, 0, "x.reserve(5)"}); ops.push_back({SHRINK, 0, 0, "x.shrink_to_fit()"});
     for (int k = 0; k < 3; ++k) for (int v = 0; v < 2; ++v) {
@@ -143,6 +166,7 @@ static bool apply(State<Json>& s, const Op& op, const std::vector<std::pair<std:
     Json& x = s.x; Json& y = s.y; MV& mx = s.mx; MV& my = s.my;
     bool defined = true;       // model predicts the result
     bool threw = false;
+    bool order_unspecified = false;   // ojson with a position hint: where the new member goes is abstained, the map contents are not
     const MV v1 = MV::int64(1), v2 = MV::int64(2), v3 = MV::int64(3), vs = MV::str("s");
     auto V = [&](int v, const MV& num) -> const MV& { return v ? vs : num; };
     try {
@@ -170,9 +194,76 @@ static bool apply(State<Json>& s, const Op& op, const std::vector<std::pair<std:
                 if (mx.k == MV::Arr && (size_t)op.a < mx.a.size()) { mx.a.erase(mx.a.begin() + op.a); x.erase(x.array_range().begin() + op.a); }
                 else return true;
                 break;
-            case ERASE_RANGE:
-                if (mx.k == MV::Arr && mx.a.size() >= 2) { mx.a.erase(mx.a.begin(), mx.a.begin() + 2); x.erase(x.array_range().begin(), x.array_range().begin() + 2); }
-                else return true;
+            case ERASE_RANGE: {
+                if (mx.k != MV::Arr) return true;
+                size_t n = mx.a.size(), i = op.a < 0 ? n : (size_t)op.a, j = op.b < 0 ? n : (size_t)op.b;
+                if (i > n || j > n || i > j) return true;
+                auto first = op.a < 0 ? x.array_range().end() : x.array_range().begin() + i; auto last = op.b < 0 ? x.array_range().end() : x.array_range().begin() + j;
+                mx.a.erase(mx.a.begin() + i, mx.a.begin() + j);
+                auto r = x.erase(first, last);
+                if ((size_t)(r - x.array_range().begin()) != i) { g_fail = "array erase(first,last) returned an iterator at offset " + std::to_string(r - x.array_range().begin()) + ", expected " + std::to_string(i); return false; }
+                break;
+            }
+            case ERASE_OBJ_RANGE: case ERASE_OBJ_AT: {
+                if (mx.k != MV::Obj) return true;
+                size_t n = mx.o.size(), i = op.a < 0 ? n : (size_t)op.a, j = op.k == ERASE_OBJ_AT ? i + 1 : (op.b < 0 ? n : (size_t)op.b);
+                if (i > n || j > n || i > j) return true;
+                mx.o.erase(mx.o.begin() + i, mx.o.begin() + j);
+                if (op.k == ERASE_OBJ_AT) { auto r = x.erase(x.object_range().begin() + i); if ((size_t)(r - x.object_range().begin()) != i) { g_fail = "object erase(pos) returned a wrong iterator"; return false; } }
+                else {
+                    auto first = op.a < 0 ? x.object_range().end() : x.object_range().begin() + i; auto last = op.b < 0 ? x.object_range().end() : x.object_range().begin() + j;
+                    auto r = x.erase(first, last);
+                    if ((size_t)(r - x.object_range().begin()) != i) { g_fail = "object erase(first,last) returned an iterator at offset " + std::to_string(r - x.object_range().begin()) + ", expected " + std::to_string(i); return false; }
+                }
+                break;
+            }
+            case EMPLACE_BACK: if (mx.k == MV::Arr) mx.a.push_back(v1); else defined = false; x.emplace_back(1); break;
+            case EMPLACE_AT: {
+                if (mx.k != MV::Arr) return true;
+                size_t n = mx.a.size(), i = op.a < 0 ? n : (size_t)op.a; if (i > n) return true;
+                mx.a.insert(mx.a.begin() + i, vs);
+                auto r = x.emplace(op.a < 0 ? x.array_range().end() : x.array_range().begin() + i, "s");
+                if ((size_t)(r - x.array_range().begin()) != i) { g_fail = "emplace returned a wrong iterator"; return false; }
+                break;
+            }
+            case INSERT_RANGE_ARR: {
+                if (mx.k != MV::Arr || my.k != MV::Arr) return true;
+                size_t n = mx.a.size(), i = op.a < 0 ? n : 0;
+                std::vector<Json> src(y.array_range().begin(), y.array_range().end());   // a separate range (inserting a container into itself is not defined)
+                mx.a.insert(mx.a.begin() + i, my.a.begin(), my.a.end());
+                auto r = x.insert(op.a < 0 ? x.array_range().end() : x.array_range().begin(), src.begin(), src.end());
+                if ((size_t)(r - x.array_range().begin()) != i) { g_fail = "insert(pos,first,last) returned a wrong iterator"; return false; }
+                break;
+            }
+            case INSERT_RANGE_OBJ: {
+                if (mx.k != MV::Obj) { if (mx.k == MV::Null || mx.k == MV::Arr || true) defined = false; }
+                std::vector<std::pair<std::string, Json>> src{{"b", Json(2)}, {"a", Json("s")}, {"b", Json(3)}};
+                if (mx.k == MV::Obj) { if (!m_find<Json>(mx, "b")) m_insert_new<Json>(mx, "b", v2); if (!m_find<Json>(mx, "a")) m_insert_new<Json>(mx, "a", vs); }
+                x.insert(src.begin(), src.end());
+                break;
+            }
+            case HINT_INSERT_OR_ASSIGN: case HINT_TRY_EMPLACE: {
+                if (mx.k != MV::Obj) return true;
+                size_t n = mx.o.size(), h = op.b < 0 ? n : (size_t)op.b; if (h > n) return true;
+                std::string k(1, char('a' + op.a));
+                MV* e = m_find<Json>(mx, k);
+                if (e) { if (op.k == HINT_INSERT_OR_ASSIGN) *e = v2; } else { m_insert_new<Json>(mx, k, v2); if (!IsSorted<Json>::value) order_unspecified = true; }
+                auto hint = op.b < 0 ? x.object_range().end() : x.object_range().begin() + h;
+                auto r = op.k == HINT_INSERT_OR_ASSIGN ? x.insert_or_assign(hint, k, 2) : x.try_emplace(hint, k, 2);
+                if (std::string(r->key()) != k) { g_fail = "hinted insert returned an iterator to the wrong key"; return false; }
+                break;
+            }
+            case HINT_MERGE: case HINT_MERGE_OR_UPDATE: {
+                if (mx.k != MV::Obj || my.k != MV::Obj) return true;
+                size_t n = mx.o.size(), h = op.b < 0 ? n : (size_t)op.b; if (h > n) return true;
+                for (auto& kv : my.o) { MV* e = m_find<Json>(mx, kv.first); if (!e) { m_insert_new<Json>(mx, kv.first, kv.second); if (!IsSorted<Json>::value) order_unspecified = true; } else if (op.k == HINT_MERGE_OR_UPDATE) *e = kv.second; }
+                auto hint = op.b < 0 ? x.object_range().end() : x.object_range().begin() + h;
+                if (op.k == HINT_MERGE) x.merge(hint, y); else x.merge_or_update(hint, y);
+                break;
+            }
+            case RESIZE_VAL: if (mx.k == MV::Arr) mx.a.resize(op.a, vs); x.resize(op.a, Json("s")); break;
+            case INDEX_POS_ASSIGN:
+                if (mx.k == MV::Arr && (size_t)op.a < mx.a.size()) { mx.a[op.a] = v3; x[(size_t)op.a] = 3; } else return true;
                 break;
             case RESIZE: if (mx.k == MV::Arr) { mx.a.resize(op.a, IsSorted<Json>::value ? to_mv(Json()) : to_mv(Json())); } x.resize(op.a); break;
             case CLEAR: if (mx.k == MV::Arr) mx.a.clear(); else if (mx.k == MV::Obj) mx.o.clear(); x.clear(); break;
@@ -225,6 +316,13 @@ static bool apply(State<Json>& s, const Op& op, const std::vector<std::pair<std:
         mx = to_mv(x); my = to_mv(y);
     }
     (void)threw;
+    if (order_unspecified) {
+        MV got = to_mv(x); MVCmp c; c.order_insensitive = true;
+        std::set<std::string> keys; for (auto& kv : got.o) keys.insert(kv.first);
+        if (keys.size() != got.o.size()) { g_fail = "object holds a duplicate key after a hinted insertion: " + mv_text(got); return false; }
+        if (!mv_eq(got, mx, c)) { g_fail = "x differs from model as a map: impl=" + mv_text(got) + " model=" + mv_text(mx); return false; }
+        mx = got;
+    }
     if (!probe(x, mx, "x")) return false;
     if (!probe(y, my, "y")) return false;
     return true;
